@@ -165,6 +165,10 @@ def run(ctx):
     wd = os.path.join(ctx.workdir, 'cli')
     os.makedirs(wd, exist_ok=True)
     texts = POOL['ascii'] + POOL['latin1'] + POOL['bmp'] + ["select a,b from t where x=1 /* c */;\r\nselect case when a then 1 end"]
+    # line ends of every style INSIDE quoted regions and comments: a text channel translates them (universal newlines)
+    # before format() sees the text, on every input channel alike
+    texts += ["select 'first\r\nsecond' as \"a\rb\", `c\r\nd` from t /* x\r\ny */ where z = 'p\rq';\rselect 2 -- e\r\n",
+              "insert into t values ('l1\r\nl2\r\n', $$b\r\nc$$);\r\n"]
     n = 0
     for c in cli_cases:
         text = rng.choice(texts)
